@@ -473,7 +473,8 @@ func genTemplate(r *gen.Rand) string {
 		if r.Chance(1, 3) {
 			a += "|" + manyAlts(14)
 		}
-		return gen.Pick(r, []string{"", "(", "x(", "(?:"}) + a + ")"
+		w := gen.Pick(r, [][2]string{{"", ""}, {"(", ")"}, {"x(", ")"}, {"(?:", ")"}})
+		return w[0] + a + w[1]
 	case 33:
 		// second literal is a suffix of the first: containsInOrder must not re-use its runes
 		l1 := gen.Pick(r, []string{"ab", "aa", "foo", "aba", "abab", "x1", "zz"})
@@ -890,7 +891,7 @@ func main() {
 
 	// corpus
 	for i, c := range corpus {
-		if len(c.pat) > 600 && f.Tier != "thorough" {
+		if (len(c.pat) > 600 || thoroughOnly[c.name]) && f.Tier != "thorough" {
 			continue // the 256/257/300-alternative boundary cases: thorough tier only (case file size)
 		}
 		emit(gen.Fork(f.Seed, 1_000_000+i), c.pat, c.strs, c.name)
@@ -937,7 +938,13 @@ func longAlts(short int, ns ...int) (string, []string) {
 	for _, n := range ns {
 		l := longLit(n)
 		it = append(it, l)
-		probes = append(probes, l, l+"x", l[:len(l)-1])
+		probes = append(probes, l) // every long literal itself first (the quick tier keeps 16 strings)
+	}
+	for _, n := range ns {
+		if n == 63 || n == 64 {
+			l := longLit(n)
+			probes = append(probes, l+"x", l[:len(l)-1])
+		}
 	}
 	for i := 0; i < short; i++ {
 		it = append(it, fmt.Sprintf("v%d", i))
@@ -965,6 +972,11 @@ func init() {
 	add("lenmask-map-prefixed", "x(", ")", 15, 64, 200)
 	add("lenmask-slice-noncapture", "(?:", ")", 1, 62, 64)
 }
+
+// corpus entries left to the thorough tier (case-file size; their quick-tier siblings cover the
+// same boundary)
+var thoroughOnly = map[string]bool{"lenmask-map-text-200": true, "lenmask-slice-paren": true,
+	"lenmask-map-prefixed": true, "lenmask-slice-noncapture": true}
 
 func manyAlts(n int) string {
 	it := make([]string, n)
